@@ -1,8 +1,8 @@
 package sim
 
 import (
-	"strings"
 	"fmt"
+	"strings"
 
 	"google.golang.org/grpc/status"
 )
